@@ -43,6 +43,18 @@ CLAIMED["C06"] = dict(
     technique="TLA+ spec + TLC model checking; replay of TLC behaviours; trace validation by TLC",
 )
 
+CLAIMED["C03"] = dict(
+    category="model_checking",
+    text="Productivity.tla defines the 'terms computable' operator and its least fixed point (Kleene and chaotic iteration, "
+         "capped). TLC checks on every insertion history over small alphabets that both iterations agree, the cap is adequate "
+         "and the answer is monotone, and exports every history; each is replayed into a real TableMethod (all insertion orders "
+         "of all rule multisets of that size, plus seeded random histories with up to 7 classes, arity 3, shifts -3..3) and TLC "
+         "judges after every insertion that the reported function equals the fixed point; forest traffic of real searches too.",
+    design_ref="DESIGN.md 3/C03",
+    note="Trusted: TLC; the oracle (naive capped fixed-point iteration) is independent of the gap/hold-back algorithm of the code.",
+    technique="TLA+ spec + TLC model checking; replay of TLC behaviours; trace validation by TLC",
+)
+
 NOT_YET = {}
 
 ALL = ["C%02d" % i for i in range(1, 21)]
